@@ -194,6 +194,16 @@ fn judge_generic<T: Clone + PartialOrd + Debug>(c: &Ctx, l: &mut Local, a: &T, b
     if u == lo || u == tw || lo == tw {
         bad(c, l, "eq-across-kinds", "intervals of different kinds with the same bound compare equal".into(), json!({"bound": format!("{:?}", a)}));
     }
+    // ... and the `!=` operator (a separately overridable trait method) says the same, in both argument orders
+    l.eval();
+    #[allow(clippy::nonminimal_bool)]
+    if !(u != lo) || !(lo != u) || !(u != tw) || !(tw != u) || !(lo != tw) || !(tw != lo) {
+        bad(c, l, "ne-across-kinds", "`!=` is false for intervals of different kinds with the same bound".into(), json!({"bound": format!("{:?}", a)}));
+    }
+    #[allow(clippy::eq_op)]
+    if u != u.clone() || lo != lo.clone() || tw != tw.clone() {
+        bad(c, l, "ne-of-a-copy", "`!=` is true for an interval and its copy".into(), json!({"bound": format!("{:?}", a)}));
+    }
     l.count("kinds-with-same-bound distinct");
 }
 
